@@ -176,7 +176,8 @@ class Gen:
             return self.ident() + "[" + self.r.choice(["k", "i++", "f()", "'key'"]) + "]"
         if k == 9 and self.r.chance(1, 2):
             self.tags.add('target-op-in-key')
-            return self.ident() + "[" + self.r.choice([self.ident() + " + " + self.ident(), self.ident() + "." + self.method() + "()", "`k${" + self.ident() + "}`"]) + "]"
+            return self.ident() + "[" + self.r.choice([self.ident() + " + " + self.ident(), self.ident() + "." + self.method() + "()", "`k${" + self.ident() + "}`",
+                                                       self.ident() + "(), " + self.ident() + "()", "(" + self.ident() + ", " + self.ident() + "())"]) + "]"
         self.tags.add('target-call')
         return self.ident() + "()." + self.r.choice(["p", "q"])
 
@@ -576,6 +577,11 @@ def gen_config(r: SplitMix64, full=False):
             if r.chance(1, 12):
                 m["operator"] = r.chance(1, 2)
             methods.append(m)
+        if r.chance(1, 6):
+            # the same source name listed twice with different operator flags: each entry counts for its own kind
+            nm = r.choice(["plusOperator", "tplOperator", r.choice(pool)])
+            methods.append({"src": nm, "operator": False, "dst": "asMethod_" + nm})
+            methods.append({"src": nm, "operator": True})
         # shuffle a little
         for i in range(len(methods)):
             j = r.below(len(methods))
@@ -673,9 +679,18 @@ def reserved_requests(seed, n):
         if r.chance(1, 8):
             name = "__datadog_other_0"
         spot = r.choice(spots)
-        src = spot.replace("%s", name)
+        tags = ['reserved']
+        spelled = name
+        if r.chance(1, 5) and 'comment' not in spot and 'no reserved name' not in spot:
+            # the same identifier written with an identifier escape: the text does not contain the prefix, the name does
+            k = r.below(len(name))
+            if name[k].isalnum() or name[k] == '_':
+                esc = r.choice(["\\u%04x" % ord(name[k]), "\\u{%x}" % ord(name[k])])
+                spelled = name[:k] + esc + name[k + 1:]
+                tags.append('reserved-escaped')
+        src = spot.replace("%s", spelled)
         cfg = dict(DEFAULT_CFG, localVarPrefix=pfx)
-        out.append({"id": "reserved-%d" % i, "cfg": cfg, "src": src, "file": "test.js", "tags": ['reserved']})
+        out.append({"id": "reserved-%d" % i, "cfg": cfg, "src": src, "file": "test.js", "tags": tags})
     return out
 
 
@@ -692,9 +707,14 @@ def directive_requests(seed, n):
         def dp():
             k = g.below(5)
             return " ".join(g.choice(dirs) for _ in range(k))
-        shape = g.below(7)
+        shape = g.below(9)
         body = g.choice(bodies)
-        if shape == 0:
+        if shape == 7:
+            # string statements that are NOT in a directive prologue (after other code) must stay where they are
+            src = "%s var first = 1; %s function f(a, b){ %s var q0 = a; %s %s } %s" % (dp(), dp(), dp(), dp(), body, dp())
+        elif shape == 8:
+            src = "%s var o = { get g(){ %s %s }, set s(v){ %s %s } }; class K2 extends B { constructor(a, b){ %s super(a); %s } }" % (dp(), dp(), body, dp(), body, dp(), body)
+        elif shape == 0:
             src = "%s function f(a, b){ %s %s }" % (dp(), dp(), body)
         elif shape == 1:
             src = "%s const f = (a, b) => { %s %s };" % (dp(), dp(), body)
@@ -740,7 +760,8 @@ def literal_requests(seed, n):
         elif place == 3:
             src = "function f(a){ return a.concat(%s, %s)%s; }" % (lit(), lit(), pad)
         elif place == 4:
-            src = "const m = require(%s); function f(){ return require(a, %s) + new RegExp(%s, %s) + new RegExp(a, %s); }" % (lit(), lit(), lit(), lit(), lit())
+            src = ("const m = require(%s); function f(){ return require(a, %s) + new RegExp(%s, %s) + new RegExp(a, %s) + RegExp(%s, %s) + new require(%s) "
+                   "+ o.require(%s) + new o.RegExp(%s); }") % (lit(), lit(), lit(), lit(), lit(), lit(), lit(), lit(), lit(), lit())
         elif place == 5:
             src = "function f(a){ return %s.concat(a) + `x${a}` + %s.padStart(3, a); }" % (lit(), lit())
         elif place == 6:
@@ -881,7 +902,17 @@ def exec_requests(seed, n, depth=3):
         g = Gen(gr, methods=(names + ["custom"]) if names else None, effectful=True)
         g.tags = set()
         body = g.directives() + g.stmts(depth, 4)
-        k = gr.below(6)
+        k = gr.below(9)
+        if k == 6:
+            # re-entrancy through an arrow's parameter default while the caller's temporaries are live
+            body += " const fq = (p = a() + b()) => p; return c() + fq() + x.trim();"
+            g.tags.add('arrow-default-reentrancy')
+        elif k == 7:
+            body += " const gq = (n, p = n > 0 ? y + gq(n - 1) : '') => p; return gq(2) + s;"
+            g.tags.add('arrow-default-reentrancy')
+        elif k == 8:
+            body += " const hq = (v, w = `${v}-${b()}`) => [v, w]; return a.concat(hq(c()), hq(s));"
+            g.tags.add('arrow-default-reentrancy')
         if k == 0:
             body += " return ((v, w = v + a) => v + w + b())(c, s);"
         elif k == 1:
@@ -895,7 +926,9 @@ def exec_requests(seed, n, depth=3):
             for _ in range(2 + gr.below(4)):
                 l = gr.choice(ids)
                 e = gr.choice(["-%s", "+%s", "~%s", "!%s", "typeof %s", "`t${%s()}`", "`t${''}${%s()}`", "%s()", "(%s(), 1)", "%s.p", "-%s.p",
-                               "%s[k]", "(%s)", "[%s]", "void %s()", "%s++", "%s?.p", "new %s()", "%s.trim()", "`${%s}`"]) % gr.choice(ids)
+                               "%s[k]", "(%s)", "[%s]", "void %s()", "%s++", "%s?.p", "new %s()", "%s.trim()", "`${%s}`",
+                               "class { static [%s()] = 1 }", "class { static sf = %s() }", "class extends %s() {}", "function(){ return %s }", "() => %s",
+                               "this", "new.target", "({ [%s()]: 1 })", "tag`${%s}`"]).replace("%s", gr.choice(ids))
                 form = gr.below(5)
                 if form == 0:
                     stress.append("r = %s + %s;" % (l, e))
